@@ -90,6 +90,12 @@ def _gen_program(rng, cfg):
     }
     if cfg["tree_only"]:
         spec["tree_only"] = True
+    if rng.random() < cfg.get("p_item_eq", 0.0):
+        spec["item_eq"] = True
+    if rng.random() < cfg.get("p_ext_tasks", 0.0) and T > 1:
+        spec["ext_tasks"] = [rng.randint(1, T - 1) for _ in range(rng.randint(1, 2))]
+    if rng.random() < cfg.get("p_cb_ctx", 0.0):
+        spec["cb_ctx"] = True
     if rng.random() < cfg.get("p_debug_kinds", 0.25):
         dk = [k for k in range(cfg["kinds"]) if rng.random() < 0.5]
         if dk:
@@ -103,10 +109,16 @@ def _gen_program(rng, cfg):
 
 
 def gen_prio(rng, kinds):
-    pol = rng.choice(["default", "default", "const", "perbatch", "neglen", "intconst"])
+    pol = rng.choice(["default", "default", "const", "perbatch", "neglen", "intconst", "intneg"])
     pr = {"policy": pol, "hashes": {"order": [rng.randint(0, 7) for _ in range(5)]}}
     if pol in ("const", "intconst"):
         pr["vals"] = {str(k): rng.randint(0, 2) for k in range(kinds)}
+    elif pol == "intneg":
+        # plain ints, the greatest being exactly 0 (a falsy value) and the others negative
+        vals = [0] + [-rng.randint(1, 3) for _ in range(kinds - 1)]
+        rng.shuffle(vals)
+        pr["vals"] = {str(k): vals[k] for k in range(kinds)}
+        pr["policy"] = "intconst"
     elif pol == "perbatch":
         pr["vals"] = {"seq": [rng.randint(0, 3) for _ in range(7)]}
     return pr
@@ -135,6 +147,8 @@ def _gen_faults(rng, cfg):
                         plan["new_items"] = rng.randint(1, 3)
                     if rng.random() < cfg.get("flush_reenter", 0.0):
                         plan["reenter"] = rng.randint(1, 3)
+                        if rng.random() < 0.5:
+                            plan["reenter_first"] = True
                     if rng.random() < cfg.get("flush_cancels", 0.0):
                         plan["cancel_kind"] = rng.randint(0, 3)
                     if plan:
@@ -281,7 +295,7 @@ def _gen_block(rng, cfg, i, T, nest, plain, top=False):
         if nest < cfg["nest"] and r < cfg["p_try"]:
             body = _gen_block(rng, cfg, i, T, nest + 1, plain)
             handler = _gen_block(rng, cfg, i, T, nest + 1, plain) if rng.random() < 0.6 else []
-            steps.append(["try", body, rng.choice(["all", "all", "sim"]), handler])
+            steps.append(["try", body, rng.choice(["all", "all", "sim", "base"] if cfg.get("base_exc", 0) > 0 else ["all", "all", "sim"]), handler])
             continue
         r -= cfg["p_try"]
         pc = cfg["p_ctx"] + cfg["p_sv"] + cfg["p_na"] + cfg["p_timer"]
